@@ -182,6 +182,59 @@ LockTaskScenarios ==
      {[ep |-> "GET path", field |-> "path", raw |-> p, expect |-> "ok",
        steps |-> << TaskPromise, Http("hostile", "GET", p, "") >> \o Aftermath(300)] : p \in paths}
 
+\* --- the remaining POST endpoints: create-with-task (nested objects), lock release / heartbeat, task complete / heartbeat
+TaskBodyFields == << <<"processId", "\"w\"">>, <<"ttl", "200">> >>
+PromiseTaskBody(pf, tf) == "{\"promise\":" \o Obj(pf) \o ",\"task\":" \o Obj(tf) \o "}"
+RoutedPromiseFields == With(PromiseFields, "tags", "{\"resonate:invoke\":\"poll://default/@SID@\"}")
+MoreScenarios ==
+  LET pcases == {<<"id", c>> : c \in StrCases(TRUE)} \cup {<<"timeout", c>> : c \in IntCases(FALSE)} \cup {<<"tags", c>> : c \in TagCases}
+      tcases == {<<"processId", c>> : c \in StrCases(TRUE)} \cup {<<"ttl", c>> : c \in IntCases(FALSE) \ {[raw |-> "-1", expect |-> "ok"], [raw |-> "-9223372036854775808", expect |-> "ok"]}}
+                \cup {<<"ttl", [raw |-> "-1", expect |-> "4xx"]>>}
+      whole == {[raw |-> "{\"task\":{\"processId\":\"w\",\"ttl\":5}}", expect |-> "4xx"], [raw |-> "{\"promise\":{\"id\":\"@SID@\",\"timeout\":@NOW+500@}}", expect |-> "4xx"],
+                [raw |-> "{\"promise\":null,\"task\":null}", expect |-> "4xx"], [raw |-> "{\"promise\":[],\"task\":{}}", expect |-> "4xx"]}
+      rel == {<<"resourceId", c>> : c \in StrCases(TRUE)} \cup {<<"executionId", c>> : c \in StrCases(TRUE)}
+      pidc == {<<"processId", c>> : c \in StrCases(TRUE)}
+      ctc == {<<"id", c>> : c \in StrCases(TRUE)} \cup {<<"counter", c>> : c \in IntCases(TRUE)}
+      RelFields == << <<"resourceId", "\"r-@SID@\"">>, <<"executionId", "\"e\"">> >>
+      PidFields == << <<"processId", "\"w\"">> >>
+      CtFields == << <<"id", "\"__invoke:@SID@\"">>, <<"counter", "1">> >>
+      LockSetup == Http("setup", "POST", "/locks/acquire", Obj(LockFields))
+  IN {[ep |-> "POST /promises/task", field |-> "promise." \o x[1], raw |-> x[2].raw, expect |-> x[2].expect,
+       steps |-> << Listen, Http("hostile", "POST", "/promises/task", PromiseTaskBody(With(RoutedPromiseFields, x[1], x[2].raw), TaskBodyFields)),
+                    Http("read", "GET", "/promises/@SID@", "") >> \o Aftermath(700)] : x \in pcases}
+     \cup
+     {[ep |-> "POST /promises/task", field |-> "task." \o x[1], raw |-> x[2].raw, expect |-> x[2].expect,
+       steps |-> << Listen, Http("hostile", "POST", "/promises/task", PromiseTaskBody(RoutedPromiseFields, With(TaskBodyFields, x[1], x[2].raw))),
+                    Http("heartbeat", "POST", "/tasks/heartbeat", "{\"processId\":\"w\"}") >> \o Aftermath(600)] : x \in tcases}
+     \cup
+     {[ep |-> "POST /promises/task", field |-> "body", raw |-> w.raw, expect |-> w.expect,
+       steps |-> << Http("hostile", "POST", "/promises/task", w.raw) >> \o Aftermath(200)] : w \in whole}
+     \cup
+     {[ep |-> "POST /locks/release", field |-> x[1], raw |-> x[2].raw, expect |-> x[2].expect,
+       steps |-> << LockSetup, Http("hostile", "POST", "/locks/release", Obj(With(RelFields, x[1], x[2].raw))) >> \o Aftermath(300)] : x \in rel}
+     \cup
+     {[ep |-> "POST /locks/heartbeat", field |-> x[1], raw |-> x[2].raw, expect |-> x[2].expect,
+       steps |-> << LockSetup, Http("hostile", "POST", "/locks/heartbeat", Obj(With(PidFields, x[1], x[2].raw))) >> \o Aftermath(300)] : x \in pidc}
+     \cup
+     {[ep |-> "POST /tasks/heartbeat", field |-> x[1], raw |-> x[2].raw, expect |-> x[2].expect,
+       steps |-> << TaskPromise, Http("hostile", "POST", "/tasks/heartbeat", Obj(With(PidFields, x[1], x[2].raw))) >> \o Aftermath(300)] : x \in pidc}
+     \cup
+     {[ep |-> "POST /tasks/complete", field |-> x[1], raw |-> x[2].raw, expect |-> x[2].expect,
+       steps |-> << TaskPromise, Http("claim", "POST", "/tasks/claim", Obj(ClaimFields)),
+                    Http("hostile", "POST", "/tasks/complete", Obj(With(CtFields, x[1], x[2].raw))) >> \o Aftermath(400)] : x \in ctc}
+
+\* --- request headers that steer the kernel: idempotency keys and the strict flag
+HeaderScenarios ==
+  LET hs == { <<"strict", "maybe">>, <<"strict", "">>, <<"strict", "TRUE">>, <<"strict", "1">>, <<"strict", "0">>,
+              <<"idempotency-key", "@LONG@">>, <<"idempotency-key", "{{.id}}">>, <<"idempotency-key", "a b  c">>, <<"idempotency-key", "null">> }
+  IN {[ep |-> "POST /promises", field |-> "header " \o h[1], raw |-> h[2], expect |-> "ok",
+       steps |-> << HttpH("hostile", "POST", "/promises", Obj(PromiseFields), h[1], h[2]),
+                    HttpH("again", "POST", "/promises", Obj(PromiseFields), h[1], h[2]), Http("read", "GET", "/promises/@SID@", "") >> \o Aftermath(600)] : h \in hs}
+     \cup
+     {[ep |-> "PATCH /promises", field |-> "header " \o h[1], raw |-> h[2], expect |-> "ok",
+       steps |-> << CreateP("@SID@", "@NOW+60000@", "{}"), HttpH("hostile", "PATCH", "/promises/@SID@", Obj(CompleteFields), h[1], h[2]),
+                    HttpH("again", "PATCH", "/promises/@SID@", Obj(CompleteFields), h[1], h[2]) >> \o Aftermath(300)] : h \in hs}
+
 \* --- searches: limits, states, cursors
 SearchScenarios ==
   LET qs == {"?id=*&limit=-1", "?id=*&limit=0", "?id=*&limit=101", "?id=*&limit=abc", "?id=&limit=1", "?limit=1", "?id=*&state=bogus",
@@ -249,4 +302,5 @@ GrpcScenarios ==
 
 Scenarios == PromiseScenarios \cup CompleteScenarios \cup RegistrationScenarios \cup ScheduleScenarios
              \cup LockTaskScenarios \cup SearchScenarios \cup MalformedScenarios \cup GrpcScenarios
+             \cup MoreScenarios \cup HeaderScenarios
 =============================================================================
